@@ -14,7 +14,7 @@ import (
 func init() {
 	register("C11", core.PropertyMeta{
 		Explanation: "Decides structural clauses of C11; equality of a query result with a reference evaluation is a statement about run-time values and is NOT decided. " +
-			"D1 points streamed between nodes keep every attribute: for the five point types, encode<T>Point reads every field of the point struct, decode<T>Point sets every field, and the stream decoder Decode<T>Point hands the caller either the whole decoded struct or a field-wise copy that covers every field; " +
+			"D1 points streamed between nodes keep every attribute: for the five point types, encode<T>Point reads every field of the point struct, decode<T>Point sets every field, and the stream decoder Decode<T>Point hands the caller either the whole decoded struct or a field-wise copy that covers every field; the request codecs that carry a statement to another node (iterator options, interval, variable reference, measurement, iterator statistics) restore exactly the Go fields they read and read exactly the wire fields they set; " +
 			"D2 cache/file merge of the storage cursors: for each of the ten next<T> functions the behaviour on every weak ordering of (cache key, file key, EOF) equals the table {both exhausted: EOF, no advance; equal keys: cache value, both advance; cache first in the direction of the cursor or file exhausted: cache value, cache advances; otherwise file value, file advances}; " +
 			"D3 ascending and descending are mirror images: wherever a function orders things under opt.Ascending and under !opt.Ascending (if/else arms, '&&' alternatives, the ascending/descending cursor siblings), the sequences of comparisons agree with < and >, <= and >= exchanged. " +
 			"NOT decided: window arithmetic, fill values, aggregate functions, limit/offset, equality of multi-shard and single-shard results.",
@@ -34,6 +34,17 @@ func runC11(c *core.Ctx) {
 // ---- D1 ----------------------------------------------------------------------------------------------
 
 func runPointCodecCompleteness(c *core.Ctx) {
+	nPair := 0
+	for _, p := range [][2]string{
+		{"query.encodeIteratorOptions", "query.decodeIteratorOptions"},
+		{"query.encodeInterval", "query.decodeInterval"},
+		{"query.encodeVarRef", "query.decodeVarRef"},
+		{"query.encodeMeasurement", "query.decodeMeasurement"},
+		{"query.encodeIteratorStats", "query.decodeIteratorStats"},
+	} {
+		nPair += codecPairAgreement(c, p[0], p[1])
+	}
+	c.Floor("fields of request/option codecs", nPair, 40)
 	for _, T := range fiveTypes {
 		pt := c.P.LookupType("query", T+"Point")
 		c.Need(pt != nil, "type query."+T+"Point")
@@ -101,6 +112,71 @@ func runPointCodecCompleteness(c *core.Ctx) {
 				fmt.Sprintf("Decode%sPoint fills the caller's point field by field and omits %s: a point that crossed nodes differs from the local one (for Aggregated: partial means lose their weight)", T, fld.Name()))
 		}
 	}
+}
+
+// codecPairAgreement checks an encodeX/decodeX pair: the fields of the Go value the encoder reads are the fields
+// the decoder sets, and the fields of the wire message the encoder sets are the fields the decoder reads.
+func codecPairAgreement(c *core.Ctx, encName, decName string) int {
+	enc, dec := c.Fn(encName), c.Fn(decName)
+	structOf := func(t types.Type) (*types.Named, *types.Struct) {
+		if p, ok := t.(*types.Pointer); ok {
+			t = p.Elem()
+		}
+		nt, ok := t.(*types.Named)
+		if !ok {
+			return nil, nil
+		}
+		st, _ := nt.Underlying().(*types.Struct)
+		return nt, st
+	}
+	encSig := enc.Obj.Type().(*types.Signature)
+	decSig := dec.Obj.Type().(*types.Signature)
+	if encSig.Params().Len() < 1 || encSig.Results().Len() < 1 || decSig.Params().Len() < 1 || decSig.Results().Len() < 1 {
+		c.Check("codec-pair-agreement", encName+"/shape", enc.PosStr(), false, "undecided: unexpected codec signature")
+		return 0
+	}
+	goT, goS := structOf(encSig.Params().At(0).Type())
+	wireT, wireS := structOf(encSig.Results().At(0).Type())
+	if goS == nil || wireS == nil {
+		c.Check("codec-pair-agreement", encName+"/shape", enc.PosStr(), false, "undecided: codec does not map a struct to a struct")
+		return 0
+	}
+	n := 0
+	for i := 0; i < goS.NumFields(); i++ {
+		fld := goS.Field(i)
+		r, _ := enc.AccessesField(fld)
+		_, w := dec.AccessesField(fld)
+		n++
+		c.Check("codec-pair-agreement", fmt.Sprintf("%s.%s", goT.Obj().Name(), fld.Name()), c.P.Pos(fld.Pos()), r == w,
+			fmt.Sprintf("%s.%s: read by %s=%v, restored by %s=%v: the remote node evaluates the request with a different value of this option", goT.Obj().Name(), fld.Name(), encName, r, decName, w))
+	}
+	// wire side: getters count as reads of the field they are named after
+	readsWire := func(f *core.FuncInfo, fld *types.Var) bool {
+		r, _ := f.AccessesField(fld)
+		if r {
+			return true
+		}
+		found := false
+		ast.Inspect(f.Body, func(nd ast.Node) bool {
+			if se, ok := nd.(*ast.SelectorExpr); ok && se.Sel.Name == "Get"+fld.Name() {
+				found = true
+			}
+			return !found
+		})
+		return found
+	}
+	for i := 0; i < wireS.NumFields(); i++ {
+		fld := wireS.Field(i)
+		if strings.HasPrefix(fld.Name(), "XXX_") {
+			continue
+		}
+		_, w := enc.AccessesField(fld)
+		r := readsWire(dec, fld)
+		n++
+		c.Check("codec-pair-agreement", fmt.Sprintf("%s.%s(wire)", wireT.Obj().Name(), fld.Name()), c.P.Pos(fld.Pos()), r == w,
+			fmt.Sprintf("wire field %s.%s: set by %s=%v, read by %s=%v", wireT.Obj().Name(), fld.Name(), encName, w, decName, r))
+	}
+	return n
 }
 
 // ---- D2 ----------------------------------------------------------------------------------------------
